@@ -39,6 +39,20 @@ claim("C04",
       "the returned arrays.",
       "TLA+ design model checked by TLC (safety+liveness) + TLC trace validation of scheduled-client event logs", "5/C04")
 
+claim("C01",
+      "TLC checks Rejection.tla exhaustively (set_objective / update / extract_result as actions; all batches over small "
+      "discrepancy sets with ties, +inf and nan; the unstable argsort modelled as a free choice among sorting permutations; "
+      "threshold, quantile and n_sim objectives incl. the rational form of the threshold-mode objective estimate) for BestN, "
+      "AreConsumedDraws, Sorted, ThrIsMax, BudgetBatches and the inductive buffer invariant, with the +inf filler anomaly (F2) as a "
+      "refuted negative control.  Real executions - the public stepping API driven with id-carrying batches (exhaustive for the "
+      "smallest sizes, seeded random up to 5x6) and Rejection.sample through the engine on id-valued models with a recording "
+      "subclass - are validated by TLC against Rejection_Trace.tla: P: clauses are the six clauses of C01 evaluated on the returned "
+      "Sample against the consumed batches; M: clauses compare buffer, threshold and objective after every update with the design "
+      "module.",
+      "Small-scope at design level; quantiles restricted to dyadic rationals (ceil exact in floats); discrepancies are small "
+      "integers / inf / nan; known finding F2 (filler rows displace inf/nan draws) is classified by its exact input class.",
+      "TLA+ design model checked by TLC + TLC trace validation of recorded update/result sequences", "5/C01")
+
 ALL = ["C%02d" % i for i in range(1, 21)]
 
 
